@@ -365,7 +365,7 @@ class Check:
                         v3['history_dependent'] = 'passes when executed alone; fails after the %d earlier lines of its replayer process' % len(hist)
                         rec, verdict, v2 = r2, v3, v3
                 if v2.get('v') == 'ok':
-                    log('candidate on line %s not reproduced on re-execution; ignored (flaky?)' % rec.get('i'))
+                    log('candidate on line %s not reproduced on re-execution; ignored (flaky?): %s' % (rec.get('i'), json.dumps(verdict)[:400]))
                     self.extra['not_reproduced'] = self.extra.get('not_reproduced', 0) + 1
                     return
             verdict = v2
